@@ -17,6 +17,7 @@ inductive Kind where
   | connect | capReq | capEnd | authMech | payload | nick | pong
   | startSasl      -- not a message: the permission to enter a SASL state (`on_sasl_cap`)
   | ackPerm        -- not a message: the permission to raise the ghost `saslAcked` (CAP ACK)
+  | connPerm       -- not a message: the permission to open a new socket at once (`reconnect(wait=False)`)
 deriving DecidableEq, Repr
 
 def Out.kind : Out → Kind
@@ -125,7 +126,8 @@ inductive Move (cfg : Cfg) (K : Kind → Bool) : Abs → Abs → Prop
   /-- ServersMixin._applyStsPolicy drops an expired policy -/
   | expire (a : Abs) (host : Str) : Move cfg K a { a with policies := dictDel a.policies host }
   /-- SocketDriver.reconnect opens a socket to the next server -/
-  | conn (a : Abs) (f : Bool) (h : cfg.realDriver = true) : Move cfg K a { a with forced := f, sock := a.sock + 1 }
+  | conn (a : Abs) (f : Bool) (h : cfg.realDriver = true) (hK : K .connPerm = true) :
+      Move cfg K a { a with forced := f, sock := a.sock + 1 }
 
 inductive Moves (cfg : Cfg) (K : Kind → Bool) : Abs → Abs → Prop
   | refl (a : Abs) : Moves cfg K a a
@@ -163,7 +165,7 @@ theorem Move.mono {cfg : Cfg} {K K' : Kind → Bool} (hK : ∀ k, K k = true →
   case reset h => exact .reset _ h
   case store h ps => exact .store _ h ps
   case expire host => exact .expire _ host
-  case conn f h => exact .conn _ f h
+  case conn f h hp => exact .conn _ f h (hK _ hp)
 
 theorem Moves.mono {cfg : Cfg} {K K' : Kind → Bool} (hK : ∀ k, K k = true → K' k = true) {a b : Abs}
     (h : Moves cfg K a b) : Moves cfg K' a b := by
